@@ -31,7 +31,7 @@ def extents_overlap(a, b):
     return a.location.start < b.location.end and b.location.start < a.location.end
 
 
-@contract(f"{COLLECTION_FILE}::CDSCollection.__lt__", props=["C06"])
+@contract(f"{COLLECTION_FILE}::CDSCollection.__lt__", props=["C06", "C05"])
 class CollectionLessThan:
     """`a < b` for two child-less collections on one stretch is the documented (start, longest first) order."""
     params = {"self": COLLECTION, "other": COLLECTION}
